@@ -30,34 +30,57 @@ ENCODED = ['bob.input.RecipeSet.parse', 'bob.input.RecipeSet.generatePackages', 
 STUBS = ['tty warnings silenced; sqlite/pickle caches are the real ones in a per-process scratch directory']
 ASSUMPTIONS = ['"all caches disabled" = PackageMatcher.matches forced to False + Recipe.__corePackagesById never reuses + '
                'a fresh project directory']
-BOUNDS = ('project of 10 recipes; 11 symbolic feature bits (who consumes X / Y, dependency order, transitive chain depth, conditional '
+BOUNDS = ('project of 13 recipes (+ tool providers, tool remapping, inherit: False, a second root recipe appearing / disappearing); 11 symbolic feature bits (who consumes X / Y, dependency order, transitive chain depth, conditional '
           'dependency, earlier visits of leaf / top with the variables unset); history of 3 invocations with symbolic sandbox on/off, -DZ override and one recipe edit')
 
 
-def write(root, bits, edit, z):
-    lx, mx, tx, direct, order, ly, cond, mpass, pre, r0x, plain = bits
+def write(root, bits, edit, z, orphan=False):
+    bits = list(bits) + [False] * (15 - len(bits))
+    lx, mx, tx, direct, order, ly, cond, mpass, pre, r0x, plain, tl, remap, luse, noinh = bits
     os.makedirs(os.path.join(root, 'recipes'), exist_ok=True)
-    with open(os.path.join(root, 'config.yaml'), 'w') as f:
-        f.write('bobMinimumVersion: "0.25"\n')
+    def put(path, text):
+        # an unchanged file is left alone (same inode and time stamps): the YAML cache of the next invocation hits
+        try:
+            with open(path) as f:
+                if f.read() == text:
+                    return
+        except OSError:
+            pass
+        with open(path, 'w') as f:
+            f.write(text)
+    put(os.path.join(root, 'config.yaml'), 'bobMinimumVersion: "0.25"\n')
 
     def rec(name, text):
-        with open(os.path.join(root, 'recipes', name + '.yaml'), 'w') as f:
-            f.write(text)
+        put(os.path.join(root, 'recipes', name + '.yaml'), text)
+    tool = 'tcc' if remap else 'cc'
+    rm = '    tools: {tcc: cc}\n' if (tl and remap) else ''
     rec('leaf', 'packageScript: "leaf-%d"\n' % edit + ('packageVars: [%s]\n' % ', '.join((['X'] if lx else []) + (['Y'] if ly else []))
-                                                   if (lx or ly) else ''))
-    rec('mid', 'depends: [leaf]\npackageScript: "mid"\n' + ('packageVars: [X]\n' if mx else '') +
-        ('provideVars: {Y: "from-mid"}\n' if mpass else ''))
+                                                   if (lx or ly) else '') +
+        ('packageTools: [%s]\n' % tool if (tl and luse and not noinh) else ''))
+    rec('mid', 'depends:\n  - name: leaf\n' + ('    inherit: False\n' if noinh else '') + 'packageScript: "mid"\n' +
+        ('packageVars: [X]\n' if mx else '') + ('provideVars: {Y: "from-mid"}\n' if mpass else ''))
     deps = ['mid'] + (['leaf'] if direct else [])
     if order:
         deps.reverse()
-    rec('top', 'depends: [%s]\npackageScript: "top"\n' % ', '.join(deps) + ('packageVars: [X]\n' if tx else ''))
-    rec('r1', 'depends:\n  - name: top\n    environment: {X: "1", Y: "a"}\npackageScript: "r1"\n')
-    rec('r2', 'depends:\n  - name: top\n    environment: {X: "2", Y: "a"}\npackageScript: "r2"\n')
-    rec('r0', ('depends:\n  - name: leaf\n    environment: {X: "1"}\n' if r0x else 'depends: [leaf]\n') + 'packageScript: "r0"\n')
+    rec('top', 'depends:\n' + ''.join('  - name: %s\n%s' % (d, rm) for d in deps) + 'packageScript: "top"\n' +
+        ('packageVars: [X]\n' if tx else ''))
+    tdep = lambda t: ('  - name: %s\n    use: [tools]\n    forward: True\n' % t) if tl else ''
+    rec('r1', 'depends:\n' + tdep('tca') + '  - name: top\n    environment: {X: "1", Y: "a"}\npackageScript: "r1"\n')
+    rec('r2', 'depends:\n' + tdep('tcb') + '  - name: top\n    environment: {X: "2", Y: "a"}\npackageScript: "r2"\n')
+    rec('r0', 'depends:\n  - name: leaf\n' + rm + ('    environment: {X: "1"}\n' if r0x else '') + 'packageScript: "r0"\n')
+    rec('tca', 'packageScript: "tca"\nprovideTools:\n  cc: bin\n')
+    rec('tcb', 'packageScript: "tcb"\nprovideTools:\n  cc:\n    path: bin\n    libs: [lib]\n  ld: bin\n')
     rec('sb', 'packageScript: "sb"\nprovideSandbox:\n  paths: ["/bin"]\n')
     rec('extra', 'packageScript: "extra"\n')
     rec('zdep', 'packageScript: "zdep"\npackageVars: [Z]\n')
+    orph = os.path.join(root, 'recipes', 'orphan.yaml')
+    if orphan:
+        rec('orphan', 'root: True\npackageScript: "orphan"\n')
+    elif os.path.exists(orph):
+        os.unlink(orph)
     r = 'root: True\ndepends:\n  - name: sb\n    use: [sandbox]\n'
+    if tl:
+        r += '  - name: tca\n    use: [tools]\n    forward: True\n'
     if pre:
         r += '  - r0\n'
     if plain:
@@ -134,7 +157,10 @@ def one(root, defines, sandbox, nocache=False):
                 r._Recipe__corePackagesById = _NoReuse()
         packages = rs.generatePackages(lambda s, m: 'unused', sandbox)
         try:
-            return dump(packages)
+            try:
+                return dump(packages)
+            except Exception as e:
+                return ({'<walk raised>': type(e).__name__}, [])
         finally:
             packages.close()
             for n in _nodes:
@@ -176,12 +202,13 @@ def scenario(bits, hist):
     try:
         with contextlib.redirect_stderr(buf), contextlib.redirect_stdout(buf):
             proj = fresh('proj')
-            for (sandbox, z, edit) in hist:
-                write(proj, bits, edit, z)
+            for h in hist:
+                (sandbox, z, edit), orphan = h[:3], (h[3] if len(h) > 3 else False)
+                write(proj, bits, edit, z, orphan)
                 defines = {'Z': '1'} if z else {}
                 got = one(proj, defines, sandbox)
                 ref = fresh('ref')
-                write(ref, bits, edit, z)
+                write(ref, bits, edit, z, orphan)
                 want = one(ref, defines, sandbox, nocache=True)
                 if got[0] != want[0]:
                     return False, 'graph-differs-from-uncached'
@@ -211,6 +238,30 @@ def check_caches(lx: bool, mx: bool, tx: bool, direct: bool, order: bool, ly: bo
     return V.verdict(ok, fact)
 
 
+def check_tools(lx: bool, tx: bool, direct: bool, order: bool, pre: bool, plain: bool, remap: bool, luse: bool, noinh: bool) -> bool:
+    """
+    pre: remap == bool(V.SHARD[0] & 1) and noinh == bool(V.SHARD[0] & 2)
+    post: _
+    """
+    V.enter()
+    bits = [bool(b) for b in (lx, False, tx, direct, order, False, False, False, pre, False, plain, True, remap, luse, noinh)]
+    hist = [(False, False, 0), (True, True, 1)]
+    with V.fast():
+        ok, fact = scenario(bits, hist)
+    return V.verdict(ok, fact)
+
+
+def check_files(o0: bool, o1: bool, o2: bool, o3: bool, s3: bool) -> bool:
+    """files appearing / disappearing between invocations in one project directory (a further root recipe)
+    post: _
+    """
+    V.enter()
+    hist = [(False, False, 0, bool(o0)), (False, False, 0, bool(o1)), (False, False, 0, bool(o2)), (bool(s3), False, 0, bool(o3))]
+    with V.fast():
+        ok, fact = scenario(PRESETS[V.SHARD[0]], hist)
+    return V.verdict(ok, fact)
+
+
 def check_history(s0: bool, s1: bool, s2: bool, z1: bool, z2: bool, e1: bool, e2: bool) -> bool:
     """
     pre: V.SHARD[1] >= 3 or (not s2 and not z2 and not e2)
@@ -229,4 +280,6 @@ def PLAN(tier):
     q = tier == 'quick'
     P = [dict(fn='check_caches', shard=[k], timeout=600 if q else 3000) for k in range(16)]
     P += [dict(fn='check_history', shard=[k, 2 if q else 3], timeout=600 if q else 3000) for k in range(3)]
+    P += [dict(fn='check_tools', shard=[k], timeout=600 if q else 3000) for k in range(4)]
+    P += [dict(fn='check_files', shard=[k], timeout=600) for k in range(1 if q else 3)]
     return P
